@@ -472,6 +472,26 @@ def directed_negatives(rng):
     return out
 
 
+def directed_txn_matrix(rng):
+    """every transaction kind as a declared parameter x every concrete kind as the argument's type_enum: a matching
+    argument (or any argument for `txn`) is accepted, every other ordered pair is refused"""
+    out = []
+    n = 0
+    for d in KINDS:                 # any, pay, keyreg, acfg, axfer, afrz, appl
+        for a in KINDS[1:]:
+            n += 1
+            ok = d == "any" or d == a
+            pre = [("uint", 64)] if n % 2 else []
+            post = [("ref", "asset")] if n % 3 == 0 else [("uint", 64)]
+            ps = pre + [("txn", d)] + post
+            c = {"name": "freeze", "params": ps, "ret": None if n % 2 else ("uint", 64), "app_id": ("x", "uint", 9, "const"),
+                 "args": [gen_arg(rng, t) for t in pre] + [gen_dict(rng, a)] + [gen_arg(rng, t) for t in post], "extra": [],
+                 "api": ["MethodCall", "ExecuteMethodCall", "prefixed"][n % 3], "expect": "ok" if ok else "reject",
+                 "neg": None if ok else "txn-kind-matrix"}
+            out.append(c)
+    return out
+
+
 def gen_negative(rng, idx):
     """a call with exactly one defect (or a tricky accepted variant); `neg` names it"""
     for _ in range(200):
@@ -1388,6 +1408,7 @@ def main(argv):
     cases.append(("finding", finding_case()))
     cases += [("small", c) for c in small_cases(ck.rng)]
     cases += [("directed", c) for c in directed_negatives(ck.rng)]
+    cases += [("directed", c) for c in directed_txn_matrix(ck.rng)]
     nrand = 6000 if thorough else 600
     profiles = ["any", "cutoff", "small", "txnheavy", "refheavy", "any", "small"]
     for i in range(nrand):
